@@ -387,3 +387,87 @@ def check_parser(m2m, expand_macro, name):
             out.append(('ensures.parser', f'{text}: parser gives {got}, expand_macro {want}', f'{kind} annots={label} -> parser differs',
                         dict(name=name, parser=True)))
     return out
+
+
+# ----------------------------------------------------------------------------- bodies of several stack arities
+
+def _P(prim, *args):
+    return {'prim': prim, 'args': list(args)} if args else {'prim': prim}
+
+
+def body(k):
+    """opaque body consuming k slots and producing one: f(x1..xk) = Some (Pair x1 .. xk)"""
+    return [_P('SOME')] if k == 1 else [_P('PAIR', {'int': str(k)}), _P('SOME')]
+
+
+BODY_1_2 = [_P('SOME'), _P('UNIT'), _P('SWAP')]                    # consumes 1, produces 2:  x -> Some x : Unit
+TX = ('opaque:x',)
+
+
+def arity_stacks(name):
+    """-> [(label, types, values, code args as Micheline)] for the macros that take code bodies (and SET_C..R): bodies that
+    reach below their operand, on stacks with opaque slots (tokens and pairs of tokens) underneath"""
+    kind, par, nargs = M.classify(name)
+    tk = Tokens()
+    below = lambda: [(tk.fresh(), tk.fresh()), (tk.fresh(), tk.fresh()), tk.fresh(), tk.fresh()]      # noqa: E731
+    same = lambda n: [f'x{i}' for i in range(n)]                                                       # noqa: E731  one common opaque type
+    out = []
+
+    def add(label, vals, code, types=None):
+        vals = list(vals)
+        out.append((label, tuple(types or [type_of(v) for v in vals]), tuple(vals), [list(c) for c in code]))
+    if kind == 'map_cxr':
+        for k in (1, 2, 3):
+            add(f'body {k}->1', [M.path_shape_value(par, tk.fresh)] + below(), [body(k)])
+        add('body 1->2', [M.path_shape_value(par, tk.fresh)] + below(), [BODY_1_2])
+    elif kind == 'set_cxr':
+        add('slots below', [M.path_shape_value(par, tk.fresh), tk.fresh()] + below(), [])
+        add('pair as new value', [M.path_shape_value(par, tk.fresh), (tk.fresh(), tk.fresh())] + below(), [])
+    elif kind == 'dip':
+        n = len(par)
+        for k in (1, 2, 3):
+            add(f'body {k}->1', [tk.fresh() for _ in range(n)] + below(), [body(k)])
+        add('body 1->2', [tk.fresh() for _ in range(n)] + below(), [BODY_1_2])
+    elif kind in ('if', 'ifcmp'):
+        heads = [[-1], [0], [1]] if kind == 'if' else [[0, 0], [0, 1], [1, 0]]
+        for k in (2, 3):
+            for h in heads:
+                vals = h + same(4)
+                add(f'branches {k}->1', vals, [body(k), [_P('SWAP')] + body(k)], [R.T_INT] * len(h) + [TX] * 4)
+    elif kind == 'if_some':
+        for k in (2, 3):
+            for o in (None, ('Some', 'xs')):
+                add(f'branches {k}->1', [o] + same(4), [body(k), [_P('DUP')] + body(k)], [('option', TX)] + [TX] * 4)
+    elif kind == 'if_right':
+        for k in (2, 3):
+            for o in (('Left', 'xl'), ('Right', 'xr')):
+                add(f'branches {k}->1', [o] + same(4), [body(k), [_P('SWAP')] + body(k)], [('or', TX, TX)] + [TX] * 4)
+    return out
+
+
+def _same(a, b):
+    return a == b or (a[0] == b[0] == 'ill-typed')
+
+
+def check_documented(expand_macro, name):
+    """the real expansion and the expansion printed in the documentation have the same effect (reference interpreter),
+    on the plain stacks and on the stacks with bodies of several arities"""
+    out, n = [], 0
+    kind, par, nargs = M.classify(name)
+    cases = [('plain', t, v, [list(CODE[c][0]) for c in cn]) for t, v, cn in stacks_for(name)] + arity_stacks(name)
+    for label, types, values, code in cases:
+        try:
+            real = expand_macro(prim=name, annots=[], args=[list(c) for c in code])
+        except Exception:  # noqa   reported by check_name
+            continue
+        doc = M.documented_expansion(name, tuple(code))
+        got, want = run_expansion(real, types, values), run_expansion(doc, types, values)
+        n += 1
+        if label != 'plain' and want[0] == 'ill-typed' and kind not in ('map_cxr',):
+            out.append(('harness', f'{name} {label}: documented expansion is ill-typed on the test stack: {want}', 'harness', dict(name=name)))
+        if not _same(got, want):
+            out.append(('ensures.documented_expansion',
+                        f'{name} with code {code} on {list(values)}: expansion {real} gives {got}; the documented expansion {doc} gives {want}',
+                        f'{kind} {label} -> {got[0]} vs {want[0]}', dict(name=name, documented=True)))
+            break
+    return out, n
